@@ -293,8 +293,15 @@ func checkNew(quick bool) []*result {
 			}
 		}
 	}
-	divs := []cd{{"Fair", div2.Fair, false}, {"Rate", div2.Rate, false}, {"omitting", lowOmit, false}, {"over-allocating", over, true}, {"under-allocating", under, true}}
-	col := newCollector("C15", fmt.Sprintf("v2 priority.New over %d priority sets x quantity 1..%d x dividers {Fair, Rate, key-omitting, over-allocating, under-allocating}", len(sets), maxQ))
+	foreign := func(priorities []uint, dividend uint, distribution map[uint]uint) {
+		// correct among the listed priorities, one more unit under a key that is not listed
+		div2.Fair(priorities, dividend, distribution)
+		if len(priorities) > 0 {
+			distribution[priorities[0]+1]++
+		}
+	}
+	divs := []cd{{"Fair", div2.Fair, false}, {"Rate", div2.Rate, false}, {"omitting", lowOmit, false}, {"over-allocating", over, true}, {"under-allocating", under, true}, {"over-allocating under an unlisted key", foreign, true}}
+	col := newCollector("C15", fmt.Sprintf("v2 priority.New over %d priority sets x quantity 1..%d x dividers {Fair, Rate, key-omitting, over-allocating, under-allocating, over-allocating under an unlisted key}", len(sets), maxQ))
 	col.parallel(len(sets), func(i int, s *shard) {
 		prios := sets[i]
 		for _, dv := range divs {
